@@ -34,9 +34,13 @@ def ensureCapacity (s : Stack) (capacity : Nat) : Except Err (Stack × Bool) :=
     let nodes ← copyLoop s.nodes (List.replicate capacity none) s.top
     pure ({ s with nodes := nodes, capacity := capacity }, true)
 
+/-- the growth step at the start of push -/
+def growIfFull (s : Stack) : Except Err (Stack × Bool) :=
+  if s.top = s.capacity then ensureCapacity s (s.capacity * 2) else pure (s, true)
+
 /-- `muggle_stack_push`: offset of the returned node, `none` = NULL -/
 def push (s : Stack) (data : Val) : Except Err (Stack × Option Nat) := do
-  let (s, ok) ← if s.top = s.capacity then ensureCapacity s (s.capacity * 2) else pure (s, true)
+  let (s, ok) ← growIfFull s
   if !ok then return (s, none)
   let nodes ← wr s.nodes s.top data
   return ({ s with nodes := nodes, top := s.top + 1 }, some s.top)
@@ -72,5 +76,54 @@ def specPop (l : List Val) (fr : Bool) : List Val × List Val :=
   (l.dropLast, if fr then (match l.getLast? with | some v => if v ≠ 0 then [v] else [] | none => []) else [])
 def specClear (l : List Val) (fr : Bool) : List Val × List Val :=
   ([], if fr then l.filter (· ≠ 0) else [])
+
+/-! ## Operation histories -/
+
+inductive Op where
+  | push (v : Val)
+  | top
+  | pop (fr : Bool)
+  | clear (fr : Bool)
+  | ensure (c : Nat)
+  | dump
+  deriving Repr, DecidableEq
+
+inductive Res where
+  | pos (r : Option Nat)
+  | cell (r : Option (Nat × Val))
+  | freed (f : List Val)
+  | ensured
+  | contents (size : Nat) (l : List Val)
+  deriving Repr, DecidableEq
+
+def step (s : Stack) : Op → Except Err (Stack × Res)
+  | .push v => do let (s, r) ← push s v; pure (s, .pos r)
+  | .top => do let r ← top s; pure (s, .cell r)
+  | .pop fr => do let (s, f) ← pop s fr; pure (s, .freed f)
+  | .clear fr => do let (s, f) ← clear s fr; pure (s, .freed f)
+  | .ensure c => do let (s, _) ← ensureCapacity s c; pure (s, .ensured)
+  | .dump => do let c ← contents s; pure (s, .contents s.top c)
+
+def specStep (l : List Val) : Op → List Val × Res
+  | .push v => let (l', r) := specPush l v; (l', .pos r)
+  | .top => (l, .cell (specTop l))
+  | .pop fr => let (l', f) := specPop l fr; (l', .freed f)
+  | .clear fr => let (l', f) := specClear l fr; (l', .freed f)
+  | .ensure _ => (l, .ensured)
+  | .dump => (l, .contents l.length l)
+
+def run (s : Stack) : List Op → Except Err (Stack × List Res)
+  | [] => .ok (s, [])
+  | op :: ops => do
+    let (s1, r) ← step s op
+    let (s2, rs) ← run s1 ops
+    pure (s2, r :: rs)
+
+def specRun (l : List Val) : List Op → List Val × List Res
+  | [] => (l, [])
+  | op :: ops =>
+    let (l1, r) := specStep l op
+    let (l2, rs) := specRun l1 ops
+    (l2, r :: rs)
 
 end MgModel.C11.Stk
